@@ -356,7 +356,7 @@ func TestC14Filter(t *testing.T) {
 
 func TestC14TableSequential(t *testing.T) {
 	sec := stats.Sec("format_table", ruleTable)
-	keys := []string{"json", "text", "", "cloudevents-json"}
+	keys := []string{"json", "text", "", "cloudevents-json", "JSON", "Json", "json ", " json", "text\n"} // exact strings
 	rapid.Check(t, func(t *rapid.T) {
 		ev := &eventlogger.Event{}
 		if rapid.Bool().Draw(t, "preinit") {
@@ -417,7 +417,7 @@ func TestC14TableConcurrent(t *testing.T) {
 	rapid.Check(t, func(t *rapid.T) {
 		g := rapid.IntRange(2, 8).Draw(t, "goroutines")
 		per := rapid.IntRange(1, 30).Draw(t, "opsPerGoroutine")
-		keys := []string{"json", "text"}
+		keys := []string{"json", "text", "JSON", "json "}
 		ev := &eventlogger.Event{}
 		written := make([][][]byte, g) // per goroutine, the slices it wrote (per op)
 		lastFor := make([]map[string][]byte, g)
